@@ -4,7 +4,7 @@
    Primitives are explicit premises: H (Keccak-256 of what a MAC hash absorbed),
    aes_block (macCipher.Encrypt), ks (AES-CTR key stream shared by both sides),
    snappy_enc/snappy_dec, recover (ECDSA public-key recovery), sign. *)
-From AQ Require Import Lib.Bytes Lib.Keccak Rlp.RlpSpec Generated.GenParamsNet Rlp.Typed Generated.GenAquaMsgs Net.Frame Net.FrameIO Net.Discover Net.Limits Net.Handshake Net.Messages Net.NetProofs Net.FrameIOProofs Net.MessagesProofs.
+From AQ Require Import Lib.Bytes Lib.Keccak Rlp.RlpSpec Generated.GenParamsNet Rlp.Typed Generated.GenAquaMsgs Net.Frame Net.FrameIO Net.Discover Net.Limits Net.Handshake Net.Messages Net.ProtoHs Net.NetProofs Net.FrameIOProofs Net.MessagesProofs Net.ProtoHsProofs.
 Local Open Scope N_scope.
 
 (* ---- RLPx frames ---- *)
@@ -328,6 +328,20 @@ Theorem C17_protocol_handshake_ok : forall (code size : N) (payload id : bytes),
 Proof. exact protocol_handshake_ok. Qed.
 Print Assumptions C17_protocol_handshake_ok.
 
+(* The protocol handshake as an interleaving system (Net/ProtoHs.v): the writer goroutine samples
+   rw.snappy once when WriteMsg starts; the reader reads the remote handshake, waits for the writer
+   (<-werr) and only then sets rw.snappy.  In EVERY interleaving (every state reachable by
+   arbitrarily scheduled atomic steps): our handshake frame is never compressed, the flag is false
+   until the reader's last step, and on completion the writer has finished and
+   rw.snappy = (their.Version >= 5).  (With the flag set before <-werr there is an interleaving that
+   compresses the handshake — Example below — which an honest v5 peer cannot read.) *)
+Theorem C17_proto_handshake_safe : forall (v : N) (s : hstate), reach false v s ->
+  (forall b, sampled_of s = Some b -> b = false) /\
+  (hs_r s <> RDone -> hs_flag s = false) /\
+  (hs_r s = RDone -> writer_done s = true /\ hs_flag s = (snappy_protocol_version <=? v)).
+Proof. exact proto_handshake_safe. Qed.
+Print Assumptions C17_proto_handshake_safe.
+
 (* ---- aqua sub-protocol limits ---- *)
 Theorem C17_gate_rejects_oversize : forall code size,
   protocol_max_msg_size < size -> handle_gate code size = GTooLarge.
@@ -357,6 +371,15 @@ Print Assumptions C17_serve_headers_bounded.
 Theorem C17_disc_reason_range : forall payload : bytes, disc_reason payload < two64.
 Proof. exact disc_reason_range. Qed.
 Print Assumptions C17_disc_reason_range.
+
+(* a skeleton-fill header delivery (queue.DeliverHeaders) is accepted only as a whole: a pending
+   request, exactly MaxHeaderFetch headers, anchored at the requested origin and at the skeleton
+   header, contiguous in number and parent link — otherwise an error value, never a partial batch *)
+Theorem C17_headers_fill_accept_only_full : forall (pending : bool) (count : N) (first_ok last_ok chain_ok : bool) (n : N),
+  headers_fill_rule pending count first_ok last_ok chain_ok = HfAccepted n ->
+  pending = true /\ n = max_header_fetch /\ count = max_header_fetch /\ first_ok = true /\ last_ok = true /\ chain_ok = true.
+Proof. exact headers_fill_accept_only_full. Qed.
+Print Assumptions C17_headers_fill_accept_only_full.
 
 (* Downloader deliveries (aqua/downloader/queue.go deliver, behind DeliverBodies and
    DeliverReceipts): whatever a peer returns — more, fewer, or other entries than
@@ -499,3 +522,15 @@ Example C17_example_handle_decode :
   | _ => False
   end /\ handle_decode 2 100 (ann ++ [xff; xff]) = HdReject /\ handle_decode 1 10485761 ann = HdTooLarge.
 Proof. vm_compute. repeat split; reflexivity. Qed.
+
+(* the outcome sets of the handshake, computed over all interleavings: as written exactly one outcome;
+   with the flag set before the writer is joined, a compressed handshake is reachable *)
+Example C17_example_proto_handshake :
+  (forall o, In o (handshake_outcomes false 5) -> o = (false, true)) /\
+  (forall o, In o (handshake_outcomes false 4) -> o = (false, false)) /\
+  In (true, true) (handshake_outcomes true 5) /\
+  reach false 5 (mk_hs false (W1 false) R0).
+Proof.
+  split; [exact handshake_outcomes_v5|split; [exact handshake_outcomes_v4|split; [exact early_set_breaks_it|]]].
+  apply (reach_step false 5 hs_init); [apply reach_init|vm_compute; auto].
+Qed.
